@@ -30,6 +30,41 @@ enum Tok {
     Typed(Level),
     Text(&'static str),
     Int(i32),
+    /// the text arrives through a `Display` capture (e.g. a foreign level type)
+    Display(&'static str),
+    /// the value was buffered into an owned value first
+    OwnedTyped(Level),
+    OwnedText(&'static str),
+}
+
+struct D(&'static str);
+impl std::fmt::Display for D {
+    fn fmt(&self, f: &mut std::fmt::Formatter) -> std::fmt::Result {
+        f.write_str(self.0)
+    }
+}
+
+fn matches_with(f: &impl Filter, path: Path, tok: &Tok) -> bool {
+    let tpl = emit::Template::literal("x");
+    match tok {
+        Tok::Missing => f.matches(emit::Event::new(path, tpl, emit::Empty, emit::Empty)),
+        Tok::Typed(l) => f.matches(emit::Event::new(path, tpl, emit::Empty, ("lvl", *l))),
+        Tok::Text(s) => f.matches(emit::Event::new(path, tpl, emit::Empty, ("lvl", *s))),
+        Tok::Int(i) => f.matches(emit::Event::new(path, tpl, emit::Empty, ("lvl", *i))),
+        Tok::Display(s) => {
+            let d = D(s);
+            f.matches(emit::Event::new(path, tpl, emit::Empty, ("lvl", emit::Value::capture_display(&d))))
+        }
+        Tok::OwnedTyped(l) => {
+            use emit::value::ToValue;
+            let owned = l.to_value().to_owned();
+            f.matches(emit::Event::new(path, tpl, emit::Empty, ("lvl", owned)))
+        }
+        Tok::OwnedText(s) => {
+            let owned = emit::Value::from(*s).to_owned();
+            f.matches(emit::Event::new(path, tpl, emit::Empty, ("lvl", owned)))
+        }
+    }
 }
 
 fn main() {
@@ -45,11 +80,15 @@ fn main() {
         ("typed-warn".into(), Tok::Typed(Level::Warn), 3),
         ("typed-error".into(), Tok::Typed(Level::Error), 4),
         ("int-3".into(), Tok::Int(3), 0),
+        ("owned-typed-debug".into(), Tok::OwnedTyped(Level::Debug), 1),
+        ("owned-typed-error".into(), Tok::OwnedTyped(Level::Error), 4),
     ];
     for t in tokv.as_array().unwrap() {
         let joined: String = t["text"].as_array().unwrap().iter().map(|c| c.as_str().unwrap()).collect();
         let text: &'static str = Box::leak(joined.into_boxed_str());
         tokens.push((format!("text:{text}"), Tok::Text(text), t["lvl"].as_u64().unwrap()));
+        tokens.push((format!("display:{text}"), Tok::Display(text), t["lvl"].as_u64().unwrap()));
+        tokens.push((format!("owned-text:{text}"), Tok::OwnedText(text), t["lvl"].as_u64().unwrap()));
     }
     let mut rep = Report::new();
     for_each_case(cases, |_, case| {
@@ -88,13 +127,7 @@ fn main() {
                         let evl = if *tl == 0 { 2 } else { *tl };
                         let want = min == 0 || evl >= min;
                         let path = Path::new_owned_raw(mdl.clone());
-                        let tpl = emit::Template::literal("x");
-                        let got = match tok {
-                            Tok::Missing => map.matches(emit::Event::new(path, tpl, emit::Empty, emit::Empty)),
-                            Tok::Typed(l) => map.matches(emit::Event::new(path, tpl, emit::Empty, ("lvl", *l))),
-                            Tok::Text(s) => map.matches(emit::Event::new(path, tpl, emit::Empty, ("lvl", *s))),
-                            Tok::Int(i) => map.matches(emit::Event::new(path, tpl, emit::Empty, ("lvl", *i))),
-                        };
+                        let got = matches_with(&map, path, tok);
                         checks += 1;
                         if got != want {
                             failures.push(json!({"build": build, "mdl": mdl, "token": label, "min": min, "want": want, "got": got}));
@@ -125,13 +158,7 @@ fn main() {
                 let evl = if *tl != 0 { *tl } else if dflt != 0 { dflt } else { 2 };
                 let want = evl >= min;
                 let path = Path::new_raw("m");
-                let tpl = emit::Template::literal("x");
-                let got = match tok {
-                    Tok::Missing => f.matches(emit::Event::new(path, tpl, emit::Empty, emit::Empty)),
-                    Tok::Typed(l) => f.matches(emit::Event::new(path, tpl, emit::Empty, ("lvl", *l))),
-                    Tok::Text(s) => f.matches(emit::Event::new(path, tpl, emit::Empty, ("lvl", *s))),
-                    Tok::Int(i) => f.matches(emit::Event::new(path, tpl, emit::Empty, ("lvl", *i))),
-                };
+                let got = matches_with(&f, path, tok);
                 rep.checks += 1;
                 if got != want {
                     rep.mismatch("MinLevelFilter differs", &json!({"min": min, "dflt": dflt, "token": label}), json!({"want": want, "got": got}));
